@@ -384,4 +384,63 @@ def PlacementSpec (c : Cfg) (readme : List String) (leaves : List (String × Str
       else if !(calledNames e).all byValue then (false, "a function that needs an output parameter cannot be called from a query")
       else (true, "")
 
+/-! ### scope level: the call stands where its operands are alive
+
+"Evaluates in the generated job to the same number as the function of that name" needs more than
+the right text: the line that holds the call must stand inside the blocks that declare the
+variables its operands mention (the loop variable of a `First()`, an accumulator, the loop variable
+of the sequence), and those variables must be declared by *this* piece of generated code (a second
+translation of the same query object may not hand out the text of the first).  The harness cuts the
+per-event method into lines (`CodeLine`); which line holds the call is decided here, by meaning. -/
+
+def visibleIn (stack : List (List String)) (v : String) : Bool := stack.any (·.contains v)
+
+def declareIn (ds : List String) : List (List String) → List (List String)
+  | [] => [ds]
+  | f :: fs => (ds ++ f) :: fs
+
+/-- Walk the lines with a stack of frames (innermost first; `pend` = the loop variable of a `for`
+header waiting for its block).  Every line selected by `sel` may mention only visible variables. -/
+def aliveGo (sel : CodeLine → Bool) : List (List String) → List String → List CodeLine → Bool
+  | _, _, [] => true
+  | stack, pend, l :: ls =>
+    match l.kind with
+    | .openB => aliveGo sel (pend :: stack) [] ls
+    | .closeB => aliveGo sel stack.tail [] ls
+    | .forL => (!sel l || l.uses.all (visibleIn stack)) && aliveGo sel stack l.decls ls
+    | .stmt => (!sel l || l.uses.all (visibleIn stack)) && aliveGo sel (declareIn l.decls stack) [] ls
+
+/-- the first selected line that mentions a variable that is not visible there, and that variable -/
+def aliveCulprit (sel : CodeLine → Bool) : List (List String) → List String → List CodeLine → Option (String × String)
+  | _, _, [] => none
+  | stack, pend, l :: ls =>
+    match l.kind with
+    | .openB => aliveCulprit sel (pend :: stack) [] ls
+    | .closeB => aliveCulprit sel stack.tail [] ls
+    | .forL =>
+      match (if sel l then l.uses.find? (fun v => !visibleIn stack v) else none) with
+      | some v => some (l.text, v)
+      | none => aliveCulprit sel stack l.decls ls
+    | .stmt =>
+      match (if sel l then l.uses.find? (fun v => !visibleIn stack v) else none) with
+      | some v => some (l.text, v)
+      | none => aliveCulprit sel (declareIn l.decls stack) [] ls
+
+/-- the line holds an expression that means the call -/
+def holdsCall (c : Cfg) (leaves : List (String × String)) (e : PExpr) (l : CodeLine) : Bool :=
+  (l.kind == .stmt || l.kind == .forL) && !l.text.isEmpty && occursMeaning c leaves e l.text
+
+/-- `members`: the data members of the generated class (alive everywhere); `lines`: the per-event
+method.  Some line holds the call, and every such line mentions only variables alive there. -/
+def AliveSpec (c : Cfg) (readme : List String) (leaves : List (String × String)) (e : PExpr)
+    (members : List String) (lines : List CodeLine) : Bool × String :=
+  if !Documented readme e then (true, "not a documented expression: nothing demanded")
+  else if !lines.any (holdsCall c leaves e) then
+    (false, "no line of the per-event method holds an expression that means the function call")
+  else match aliveCulprit (holdsCall c leaves e) [members] [] lines with
+    | some (line, v) => (false, "the call stands where its operand is not alive: `" ++ line ++ "` mentions `" ++ v ++
+        "`, which no enclosing block of this generated method declares")
+    | none => (true, "")
+
+
 end FaxVerif.C12
